@@ -70,6 +70,9 @@ def spec_strategy():
         'init': st.sampled_from(['none', 'none', 'none', 'zeros', 'random',
                                  'random', 'exact', 'near']),
         'cfg': config_spec(),
+        # source amplitude 10**lgamp: weak and strong sources are as legitimate
+        # as O(1) ones (the system is linear)
+        'lgamp': st.sampled_from([0, 0, 0, 0, -6, -12, -20, 6, 12]),
         'seed': gen.SEED,
     }).filter(lambda s: np.prod(s['grid']['n']) <= 800)
 
@@ -78,6 +81,7 @@ def _make_source(emg3d, grid, spec, freq):
     """-> (kind actually used, sfield or None, source object or None)."""
     kind = spec['source']
     rng = gen.rng_of(spec['seed'], 71)
+    amp = 10.0**spec.get('lgamp', 0)
     n = grid.shape_cells
     if kind in ('dipole', 'solve_source') and min(n) < 3:
         kind = 'random_pec'
@@ -100,21 +104,21 @@ def _make_source(emg3d, grid, spec, freq):
             coo = pt() + [float(rng.uniform(-180, 180)),
                           float(rng.uniform(-90, 90))]
             src = emg3d.TxElectricPoint(coo, strength=float(
-                rng.uniform(0.5, 2)))
+                rng.uniform(0.5, 2))*amp)
         else:
             p0, p1 = pt(), pt()
             if np.allclose(p0, p1):
                 p1[0] = p0[0] + 0.3*(nodes[0][-2]-nodes[0][1]) \
                     if p0[0] < nodes[0][-2]*0.5+nodes[0][1]*0.5 else \
                     p0[0] - 0.3*(nodes[0][-2]-nodes[0][1])
-            src = emg3d.TxElectricDipole(np.array([p0, p1]))
+            src = emg3d.TxElectricDipole(np.array([p0, p1]), strength=amp)
         with warnings.catch_warnings():
             warnings.simplefilter('ignore')
             sf = emg3d.get_source_field(grid, src, freq)
         return kind, sf, src
     if kind == 'zero':
         return kind, emg3d.Field(grid, frequency=freq), None
-    sf = gen.random_field(grid, spec['seed'], freq, salt=72)
+    sf = gen.random_field(grid, spec['seed'], freq, salt=72, scale=amp)
     if kind == 'random_inner':
         # zero on every edge of an outermost cell
         sf.fx[0, :, :] = sf.fx[-1, :, :] = 0
@@ -349,6 +353,7 @@ def case_solve(spec, rec):
     rec.cls(f"source={skind}", f"init={init}", f"reported={rep}",
             f"ssl={sslname}", f"cycle={cfg['cycle']}", f"case={case}",
             f"laplace={fs['laplace']}", gen.regime(fs),
+            f"lgamp={spec.get('lgamp', 0)}",
             f"return_info={cfg['return_info']}", f"verb={cfg['verb']}",
             f"parity={'odd' if any(n % 2 for n in shape) else 'even'}")
     if info is not None and info['exit'] == 1:
@@ -376,6 +381,7 @@ def large_strategy():
         'source': st.sampled_from(['dipole', 'solve_source', 'random_inner']),
         'init': st.sampled_from(['none', 'none', 'random', 'near']),
         'cfg': config_spec(),
+        'lgamp': st.sampled_from([0, 0, -12, 6]),
         'seed': gen.SEED,
     }).filter(lambda s: 2000 < np.prod(s['grid']['n']) <= 20000)
 
